@@ -336,6 +336,8 @@ def select(property_id, tier, seed, only=None):
             if f['tier'] == 'thorough' and tier == 'quick':
                 skipped.append(h)
                 continue
+            if os.environ.get('VERIF_THOROUGH_DELTA') and tier == 'thorough' and f['tier'] == 'quick' and not f.get('frames'):
+                continue      # development aid: only what the thorough tier adds to the quick tier
             jobs.append((h, f))
     return cfg, fams, jobs, skipped
 
